@@ -558,8 +558,12 @@ def run_newton(task):
     clsname = {1: "PlanarNohBlackBox", 2: "CylindricalNohBlackBox", 3: "SphericalNohBlackBox"}[geom]
     m = geom - 1
     outcomes = []
-    for label, guess in newton_guesses(tag, tier, (r0, u0, p0)):
-        eos = make_eos(tag)
+    # every guess is solved twice: through the front end (a fresh wrapper per guess) and on ONE newton_solver object that is
+    # given its function once and then only new starting guesses (multi-start); a 'converged' state must satisfy the jump
+    # conditions in both (the second was added after the seeded change S2-C16-3: stale convergence state between solves)
+    shared = {"ns": None, "eos": None}
+    for mode, (label, guess) in [(m_, lg) for m_ in ("frontend", "one-newton-object") for lg in newton_guesses(tag, tier, (r0, u0, p0))]:
+        eos = make_eos(tag) if mode == "frontend" else (shared["eos"] or make_eos(tag))
         try:
             with contextlib.redirect_stdout(io.StringIO()):
                 if (r0, u0, p0) == (1, -1, 0):
@@ -586,10 +590,23 @@ def run_newton(task):
             s.set_new_solver_initial_guess(list(g))
         reasonable = (g[0] >= r0) and (g[1] > 0) and (g[2] > 0) and (g[0] < meta["rho_max"])
         glabel = "default" if label == "default" else ",".join("%g" % c for c in label)
-        where = {"guess": glabel}
+        where = {"guess": glabel} if mode == "frontend" else {"guess": glabel, "mode": mode}
         try:
             with contextlib.redirect_stdout(io.StringIO()):
-                s.solve_jump_conditions()
+                if mode == "frontend":
+                    s.solve_jump_conditions()
+                else:
+                    from exactpack.solvers.nohblackboxeos.solution_tools import newton_solver, pressure_noh_residual
+                    if shared["ns"] is None:
+                        shared["eos"] = eos
+                        shared["ns"] = newton_solver()
+                        shared["ns"].set_function(pressure_noh_residual({"density": r0, "velocity": u0, "pressure": p0, "symmetry": m}, eos))
+                    shared["ns"].set_new_initial_guess(list(g))
+                    data = shared["ns"].solve(verbose=False)
+                    s.solution_data = data
+                    s.shocked_density, s.shocked_energy, s.shock_speed = (float(x) for x in data["solution"][:3])
+                    s.shocked_pressure = float(eos.P(s.shocked_density, s.shocked_energy)) if s.shocked_density > 0 else float("nan")
+                    C["solves_on_one_newton_object"] = C.get("solves_on_one_newton_object", 0) + 1
             res["evals"] += 1
         except Exception as ex:           # no convergence reported: counted, not judged
             C["newton_raised:" + type(ex).__name__] = C.get("newton_raised:" + type(ex).__name__, 0) + 1
@@ -606,6 +623,11 @@ def run_newton(task):
         C["converged_from_reasonable_guess"] = C.get("converged_from_reasonable_guess", 0) + 1
         detail = {"returned": {"rho": rho, "e": e, "D": D, "P": P}, "guess": g,
                   "iterations": int(s.solution_data["number_of_iterations"]), "error_achieved": float(s.solution_data["error_achieved"])}
+        if mode != "frontend" and not D > 0:
+            # the bare newton_solver is a generic root finder: the non-physical root D = u0 of the jump system is a root, and it is
+            # the front end that rejects it (fix 9627f5f).  On the shared object only states offered as shocks (D > 0) are judged.
+            C["one_newton_object_nonphysical_roots_not_judged"] = C.get("one_newton_object_nonphysical_roots_not_judged", 0) + 1
+            continue
         if not D > 0:
             res["violations"].append({"solver": clsname, "cfg": cfg, "clause": "newton:positive-shock-speed", "where": where,
                                       "value": D if D == D else float("nan"), "tol": 0.0, "detail": detail})
